@@ -226,6 +226,42 @@ def check(tier: str) -> Result:
             if not ok:
                 why += f" -- not the documented horizon ({bound_desc})"
         res.add("C11.R6", site, fn, f"LAST when the counter reaches the structural horizon ({bound_desc})", ok, why)
+    # ---- TSP: the number of visited cities is a progress counter (0 at reset, +1 on every valid step, unchanged on an
+    # invalid one, which terminates): the episode ends within num_cities steps
+    cis = [c for c in tree.environment_classes() if c.name == "TSP"]
+    if not cis:
+        raise AnalysisError("environment TSP not found")
+    ea = analyse_env(tree, cis[0])
+    vfg = ea.vfg
+    site, fn = env_site(ea, "step")
+    from ..terms import uncopy as _unc
+    from ..shapes import canon as _canon
+    old = vfg.mk_attr(ea.state, "num_visited")
+    new = _unc(strip_cast(vfg.mk_attr(ea.step_state, "num_visited")))
+    alts = list(new.args[2]) if new.kind == "choice" else [new]
+    incs = [a for a in alts if linear(_unc(strip_cast(a))) == (old, 1)]
+    keeps = [a for a in alts if _unc(strip_cast(a)) is old]
+    ok3 = len(incs) == 1 and len(incs) + len(keeps) == len(alts)
+    res.add("C11.R6", site, fn, "TSP: num_visited advances by exactly 1 on a valid step and is unchanged otherwise", ok3, f"value {txt(new, 4, 120)}")
+    r0 = _unc(strip_cast(vfg.mk_attr(ea.reset_state, "num_visited")))
+    r_alts = list(r0.args[0]) if r0.kind == "phi" else [r0]
+    def _is_zero(t):
+        t = _unc(strip_cast(t))
+        while t.kind == "call" and t.args[1] and ext_name(t) in ("jax.numpy.array", "jax.numpy.asarray", "jax.numpy.int32"):
+            t = _unc(strip_cast(t.args[1][0]))
+        return t.kind == "const" and t.args[0] == 0 and not isinstance(t.args[0], bool)
+    res.add("C11.R6", env_site(ea, "reset")[0], env_site(ea, "reset")[1], "TSP: num_visited starts at 0", all(_is_zero(a) for a in r_alts), f"value {txt(r0, 3, 80)}")
+    conds = last_conditions(ea)
+    hit = None
+    for c in conds:
+        c0 = strip_cast(c)
+        if c0.kind == "cmp" and c0.args[0] in ("==", ">="):
+            a_, b_ = _unc(strip_cast(c0.args[1])), _unc(strip_cast(c0.args[2]))
+            for x, y in ((a_, b_), (b_, a_)):
+                if x is new and y.kind == "attr" and y.args[0] is ea.self_t and _canon(vfg, y.args[1]) == _canon(vfg, "num_cities") and (c0.args[0] == "==" or x is a_):
+                    hit = c
+    res.add("C11.R6", site, fn, "TSP: LAST when the new num_visited reaches num_cities", hit is not None,
+            f"disjunct {txt(hit, 3, 80)}" if hit is not None else f"no disjunct compares the new num_visited with self.num_cities: {[txt(c, 3, 60) for c in conds]}")
     # ---- R7: the counter belongs to the state VALUE: a step that writes into its argument advances the caller's counter
     # (re-stepping a kept state then ends the episode early); and the limit a user passes through make() is the one used
     from .common import borrow, TIME_LIMITED as _TL
